@@ -463,6 +463,7 @@ type pipe struct {
 	rclosed bool // reader closed: writes fail
 	seg     SegPlan
 	total   int64
+	cap     int // 0 = unbounded; otherwise a writer blocks while cap bytes wait to be read (flow control)
 }
 
 func newPipe() *pipe {
@@ -474,13 +475,14 @@ func newPipe() *pipe {
 
 // Conn is one end of a simulated TCP connection.
 type Conn struct {
-	net    *Net
-	local  *net.TCPAddr
-	remote *net.TCPAddr
-	rd     *pipe
-	wr     *pipe
-	peer   *Conn
-	Name   string
+	readsPaused bool
+	net         *Net
+	local       *net.TCPAddr
+	remote      *net.TCPAddr
+	rd          *pipe
+	wr          *pipe
+	peer        *Conn
+	Name        string
 
 	mu       sync.Mutex
 	closed   bool
@@ -690,6 +692,14 @@ func (c *Conn) Read(b []byte) (int, error) {
 		if !rdl.IsZero() && !time.Now().Before(rdl) {
 			return 0, os.ErrDeadlineExceeded
 		}
+		c.mu.Lock()
+		paused := c.readsPaused
+		c.mu.Unlock()
+		if paused {
+			p.cond.Wait() // the application behind this end is not reading right now
+
+			continue
+		}
 		if len(p.buf) > 0 {
 			if len(b) == 0 {
 				return 0, nil
@@ -705,6 +715,7 @@ func (c *Conn) Read(b []byte) (int, error) {
 			}
 			copy(b, p.buf[:n])
 			p.buf = p.buf[n:]
+			p.cond.Broadcast() // a writer may be waiting for room
 
 			return n, nil
 		}
@@ -765,11 +776,81 @@ func (c *Conn) Write(b []byte) (int, error) {
 	if p.rclosed {
 		return 0, fmt.Errorf("write: broken pipe")
 	}
-	p.buf = append(p.buf, b...)
-	p.total += int64(len(b))
-	p.cond.Broadcast()
+	if p.cap <= 0 {
+		p.buf = append(p.buf, b...)
+		p.total += int64(len(b))
+		p.cond.Broadcast()
 
-	return len(b), nil
+		return len(b), nil
+	}
+	// bounded: write what fits, wait for the reader (or the write deadline) for the rest
+	written := 0
+	var wake *time.Timer
+	defer func() {
+		if wake != nil {
+			wake.Stop()
+		}
+	}()
+	for written < len(b) {
+		if p.wclosed {
+			return written, net.ErrClosed
+		}
+		if p.rclosed {
+			return written, fmt.Errorf("write: broken pipe")
+		}
+		if room := p.cap - len(p.buf); room > 0 {
+			n := len(b) - written
+			if n > room {
+				n = room
+			}
+			p.buf = append(p.buf, b[written:written+n]...)
+			p.total += int64(n)
+			written += n
+			p.cond.Broadcast()
+
+			continue
+		}
+		c.mu.Lock()
+		wdl, closed := c.wdl, c.closed
+		c.mu.Unlock()
+		if closed {
+			return written, net.ErrClosed
+		}
+		if !wdl.IsZero() {
+			if !time.Now().Before(wdl) {
+				return written, os.ErrDeadlineExceeded
+			}
+			if wake == nil {
+				wake = time.AfterFunc(time.Until(wdl), func() {
+					p.mu.Lock()
+					p.cond.Broadcast()
+					p.mu.Unlock()
+				})
+			}
+		}
+		p.cond.Wait()
+	}
+
+	return written, nil
+}
+
+// PauseReads makes Read block (true) as if the application had stopped reading, until resumed.
+func (c *Conn) PauseReads(paused bool) {
+	c.mu.Lock()
+	c.readsPaused = paused
+	c.mu.Unlock()
+	c.rd.mu.Lock()
+	c.rd.cond.Broadcast()
+	c.rd.mu.Unlock()
+}
+
+// SetCapacity bounds the number of unread bytes this end may have in flight toward its peer: a
+// Write then blocks (until its write deadline, if any) while the peer does not read - TCP's flow
+// control.
+func (c *Conn) SetCapacity(n int) {
+	c.wr.mu.Lock()
+	c.wr.cap = n
+	c.wr.mu.Unlock()
 }
 
 // ReadFrom implements io.ReaderFrom (transport.TCPConn requires it) with a plain copy loop.
